@@ -40,14 +40,20 @@ let z_of_hex s =
   else (match n_of_hex s with N0 -> Z0 | Npos p -> Zpos p)
 let rec nat_of_int k = if k <= 0 then O else S (nat_of_int (k - 1))
 let rec int_of_nat n = match n with O -> 0 | S m -> 1 + int_of_nat m
-let n_of_int k = n_of_hex (Printf.sprintf "%x" k)
-let int_of_n n = int_of_string ("0x" ^ n_to_hex n)
+let rec int_of_pos p = match p with XH -> 1 | XO q -> 2 * int_of_pos q | XI q -> 2 * int_of_pos q + 1
+let int_of_n n = match n with N0 -> 0 | Npos p -> int_of_pos p
+let rec pos_of_int k = if k = 1 then XH else if k land 1 = 0 then XO (pos_of_int (k lsr 1)) else XI (pos_of_int (k lsr 1))
+let n_of_int k = if k <= 0 then N0 else Npos (pos_of_int k)
+let byte_tbl = Array.init 256 n_of_int
 (* byte strings as hex, two digits per byte; "-" is the empty string *)
 let bytes_of_hex s =
   if s = "-" then [] else
   let n = String.length s / 2 in
-  List.init n (fun i -> n_of_int (hexval s.[2*i] * 16 + hexval s.[2*i+1]))
+  List.init n (fun i -> byte_tbl.(hexval s.[2*i] * 16 + hexval s.[2*i+1]))
 let hex_of_bytes l =
-  if l = [] then "-" else
-  String.concat "" (List.map (fun b -> Printf.sprintf "%02x" (int_of_n b)) l)
+  if l = [] then "-" else begin
+    let b = Buffer.create 64 in
+    List.iter (fun x -> let k = int_of_n x land 255 in Buffer.add_char b hexdig.[k lsr 4]; Buffer.add_char b hexdig.[k land 15]) l;
+    Buffer.contents b
+  end
 let split_on c s = String.split_on_char c s
